@@ -20,7 +20,8 @@ func init() {
 			"R2 every backend call is the same-named method with the method's own parameters in order and its results are returned unchanged; " +
 			"R3 for every repository-typed parameter (both names of MountBlob) the backend call is dominated by check(param, kind) == nil with kind = read/write/delete/list by the sub-interface (mount: read on the source, write on the target), Repositories by check(\"*\", list), and every non-delegating return carries the error of a check call on its non-nil branch; " +
 			"R4 in Repositories every yield(name, nil) is dominated by check(name, AccessRead) == nil for the backend-supplied name; " +
-			"R5 Select's policy returns nil only under allow(name) or (list and \"*\"), ErrDenied exactly under write, ErrNameUnknown otherwise.",
+			"R5 Select's policy returns nil only under allow(name) or (list and \"*\"), ErrDenied exactly under write, ErrNameUnknown otherwise. " +
+			"R0b AccessChecker wraps exactly the registry and the policy it was given.",
 		NotDecided: "none, assuming the policy function is pure (stated in the property) and the backend honours the Interface contract.",
 		Technique:  "static analysis: SSA dominance of policy checks over backend calls, argument/result provenance, go/types method-set resolution",
 	})
